@@ -256,13 +256,19 @@ impl World {
         let _ = clock::take_sleeps();
     }
 
-    fn set_clock(&self, ev: &Value) {
+    fn set_clock(&self, ev: &mut Value) {
         let t = u(ev, "t");
         let sub = ev.get("tn").and_then(|x| x.as_u64()).unwrap_or(0);
         let ns = (self.t0 + t) * 1_000_000 + sub;
-        // the clock never goes back
-        if clock::now_ns().map(|c| c <= ns).unwrap_or(true) {
-            clock::set_ns(ns);
+        // the clock never goes back: an event requested for an instant that has already passed
+        // (the previous call slept) happens now, and is logged with the instant it happened at
+        match clock::now_ns() {
+            Some(c) if c > ns => {
+                let rel = c - self.t0 * 1_000_000;
+                ev["t"] = json!(rel / 1_000_000);
+                ev["tn"] = json!(rel % 1_000_000);
+            }
+            _ => clock::set_ns(ns),
         }
     }
 
@@ -459,7 +465,9 @@ impl World {
         let before = clock::now_ns().unwrap_or(0);
         let r = guarded(|| b.build());
         let after = clock::now_ns().unwrap_or(0);
-        ev["dt"] = json!(after - before);
+        ev["dt"] = json!((after - before).min(2_000_000_000));
+        ev["dtms"] = json!((after - before) / 1_000_000);
+        ev["dtsub"] = json!((after - before) % 1_000_000);
         ev["sleeps"] = json!(clock::take_sleeps());
         match r {
             Ok(Ok(entry)) => {
@@ -588,24 +596,24 @@ impl World {
             match s(&ev, "e") {
                 "reset" => self.reset(&mut ev),
                 "load" => {
-                    self.set_clock(&ev);
+                    self.set_clock(&mut ev);
                     self.load(&mut ev)
                 }
                 "enter" => {
-                    self.set_clock(&ev);
+                    self.set_clock(&mut ev);
                     self.enter(&mut ev)
                 }
                 "exit" => {
-                    self.set_clock(&ev);
+                    self.set_clock(&mut ev);
                     self.exit(&mut ev)
                 }
-                "adv" => self.set_clock(&ev),
+                "adv" => self.set_clock(&mut ev),
                 "sysload" => {
-                    self.set_clock(&ev);
+                    self.set_clock(&mut ev);
                     verif::system::set_system_load(num(&ev["v"]));
                 }
                 "syscpu" => {
-                    self.set_clock(&ev);
+                    self.set_clock(&mut ev);
                     verif::system::set_cpu_usage(num(&ev["v"]) as f32);
                 }
                 other => panic!("unknown world event {}", other),
